@@ -34,6 +34,24 @@ Proof.
   - destruct (N.eqb_spec g 0); [contradiction|]. cbn [negb]. split; [intros _; left; exact Hne|reflexivity].
 Qed.
 
+(* the slots of a text: as many as there are characters before the first NUL, the i-th with the initial glyph of the i-th character *)
+Lemma upto_nul_nonzero us : Forall (fun u => u <> 0) (upto_nul us).
+Proof.
+  induction us as [|u r IH]; cbn [upto_nul]; [constructor|]. destruct (N.eqb_spec u 0); [constructor|]. constructor; assumption.
+Qed.
+Lemma upto_nul_prefix us : exists rest, us = upto_nul us ++ rest /\ (rest = [] \/ hd 1 rest = 0).
+Proof.
+  induction us as [|u r (rest & E & H)]; cbn [upto_nul]; [exists []; split; [reflexivity|left; reflexivity]|].
+  destruct (N.eqb_spec u 0) as [->|Hne].
+  - exists (0 :: r). split; [reflexivity|right; reflexivity].
+  - exists rest. split; [cbn [app]; f_equal; exact E|exact H].
+Qed.
+Lemma text_glyphs_spec cmapf pm us : length (text_glyphs cmapf pm us) = length (upto_nul us) /\
+  forall i u, nth_error (upto_nul us) i = Some u -> nth_error (text_glyphs cmapf pm us) i = Some (initial_glyph (cmapf u) pm u).
+Proof.
+  unfold text_glyphs. split; [apply map_length|]. intros i u H. rewrite nth_error_map, H. reflexivity.
+Qed.
+
 (* tie A: the key of an entry is as wide as a code point needs (no Unicode scalar value is truncated by the comparison) *)
 Lemma gen_pseudo_key_holds_every_scalar : forall u, u < 0x110000 -> u mod 2 ^ GenPseudo.pseudo_uid_bits = u.
 Proof. intros u H. unfold GenPseudo.pseudo_uid_bits. apply N.mod_small. lia. Qed.
